@@ -187,6 +187,20 @@ def h_reject_edit(ctx, kind, has_time, has_ms, off, edit):
             ctx.assume(c != ".")
         bad = text[:pos] + c + text[pos + 1:]
         ctx.check("text with a non-digit in its fixed-length part is rejected", _rejects(_conv(kind), bad))
+    elif edit == "foreign_digit":
+        # any digit of the text (fixed part, offset hours, offset minutes) replaced by a decimal digit of another script
+        # (Arabic-Indic, Devanagari, full-width ...: every code point of category Nd outside ASCII); int() and \d accept those
+        cand = list(range(0, fixed_end))
+        if lay.get("dot") is not None:
+            cand.remove(lay["dot"])
+        if off is not None:
+            cand += list(range(lay["oh"], lay["oh"] + off[1]))
+            if lay.get("mdot") is not None:
+                cand += [lay["mdot"] + 1, lay["mdot"] + 2]
+        pos = ctx.choice("pos", cand)
+        c = ctx.str("c", 1, FOREIGN_DIGITS)
+        bad = text[:pos] + c + text[pos + 1:]
+        ctx.check("text with a non-ASCII decimal digit is rejected", _rejects(_conv(kind), bad))
     elif edit == "letter_in_offset":
         # a letter instead of any character of the offset part outside the zone name
         name_span = lay.get("name")
@@ -197,6 +211,22 @@ def h_reject_edit(ctx, kind, has_time, has_ms, off, edit):
         if lay.get("mdot") == pos and ctx.known("C09-offset-minutes-separator-wildcard"):
             return
         ctx.check("text with a letter in its offset part is rejected", _rejects(_conv(kind), bad))
+
+
+def _foreign_digits():
+    out = []
+    start = None
+    for cp in range(0x80, 0x110000 + 1):
+        ok = cp < 0x110000 and chr(cp).isdecimal()
+        if ok and start is None:
+            start = cp
+        elif not ok and start is not None:
+            out.append((start, cp - 1))
+            start = None
+    return out
+
+
+FOREIGN_DIGITS = _foreign_digits()
 
 
 def _conv(kind):
@@ -474,7 +504,7 @@ def instances(tier, seed):
         fields = (["month", "day"] if kind == "dt" else []) + (["hour", "minute", "second"] if has_time else []) + (["offset"] if off and off[1] == 2 else [])
         for f in fields:
             mk(f"reject_range[{f}]:" + _nm(s), "reject_range", dict(p, field=f))
-        for e in ("insert", "delete", "nondigit") + (("letter_in_offset",) if off else ()):
+        for e in ("insert", "delete", "nondigit", "foreign_digit") + (("letter_in_offset",) if off else ()):
             mk(f"reject_edit[{e}]:" + _nm(s), "reject_edit", dict(p, edit=e))
     for kind in ("dt", "time"):
         # texts well beyond 32 characters: full form with a long zone name
